@@ -309,14 +309,19 @@ func (w *World) CheckC08(ctx sdk.Context, l *Ledger, fail func(a, s, d string), 
 		inc [3]sdkmath.Int
 	}
 	obs := make([]seenT, len(l.Pos))
+	for i := range obs {
+		z := sdkmath.ZeroInt()
+		obs[i] = seenT{cum: [2]sdkmath.Int{z, z}, inc: [3]sdkmath.Int{z, z, z}}
+	}
 	for i := range l.Pos {
 		p := &l.Pos[i]
-		cs, err := k.GetClaimableSpreadRewards(qc, p.ID)
+		var cs, ci, fi sdk.Coins
+		err := core.Try(func() (e error) { cs, e = k.GetClaimableSpreadRewards(qc, p.ID); return })
 		if err != nil {
 			fail("c08.claimable-spread-query", "", fmt.Sprintf("position %d: %v", p.ID, err))
 			continue
 		}
-		ci, fi, err := k.GetClaimableIncentives(qc, p.ID)
+		err = core.Try(func() (e error) { ci, fi, e = k.GetClaimableIncentives(qc, p.ID); return })
 		if err != nil {
 			fail("c08.claimable-incentives-query", "", fmt.Sprintf("position %d: %v", p.ID, err))
 			continue
